@@ -96,7 +96,7 @@ func TestWorker(t *testing.T) {
 		if expired() {
 			break
 		}
-		handle(RunSpec{Prop: prop, Profile: "random", Seed: SeedFor(base, prop, i), Index: i})
+		handle(RunSpec{Prop: prop, Profile: "random", Seed: SeedFor(base, prop, i), Index: i, Trace: os.Getenv("VERIF_TRACEALL") != ""})
 	}
 }
 
